@@ -392,7 +392,13 @@ func extAtomicStore(fr *frame, a []value) value {
 func extAtomicCAS(fr *frame, a []value) value {
 	schedPoint(fr, "atomic")
 	p := a[0].(*value)
-	if asBool(binop(tokEQL, nil, *p, a[1])) {
+	var same bool
+	if isSym(*p) || isSym(a[1]) {
+		same = asBool(symBinop(tokEQL, nil, *p, a[1]))
+	} else {
+		same = equals(nil, *p, a[1])
+	}
+	if same {
 		*p = a[2]
 		return true
 	}
